@@ -879,6 +879,7 @@ func checkComparedAsDeclared(c *Ctx, pk *packages.Package) {
 
 // diffLoopExits: the reviewed early exits and conditional collections of the diff package's loops over spec collections.
 var diffLoopExits = map[string]string{
+	"diff.SpecAnalyser.analyzeSchemaExtensions › loop over spec.Schema #1 › break #1":                    "‹int› >= len(‹*spec.Schema›.Items.Schemas) ⇒ tuple items are compared position by position: the other tuple is shorter, the remaining items have no counterpart to compare extensions with",
 	"diff.SpecAnalyser.analyzeOperationExtensions › loop over diff.PathItemOp #1 › conditional store #1": "‹bool› ∧ !‹bool› ⇒ path-level extensions are compared once per path: the set of paths already done, filled under its own presence test",
 	"diff.SpecAnalyser.analyzeOperationExtensions › loop over diff.PathItemOp #2 › conditional store #1": "‹bool› ∧ !‹bool› ⇒ same, for deleted extensions",
 	"diff.getParams › loop over spec.Parameter #1 › conditional store #1":                                "‹spec.Parameter›.In == ‹string› ⇒ parameters of the location being compared (the caller loops over the five locations)",
